@@ -31,7 +31,7 @@ def sh(cmd, **kw):
 def collect(d, only):
     d = VERIF / d
     items = []
-    if d.name == "seeded":
+    if d.name.startswith("seeded") or any((x / "patch.diff").exists() for x in d.iterdir() if x.is_dir()):
         for sub in sorted(d.iterdir()):
             if (sub / "patch.diff").exists() and (sub / "meta.json").exists():
                 meta = json.loads((sub / "meta.json").read_text())
